@@ -1,47 +1,47 @@
-(* C04 - garbage is reclaimed and a finished run leaves nothing behind.
-   Property theorems only.  Part 1: the collector. *)
-From NL.Spec Require Import GCInv.
-From NL.Proofs Require GCProofs.
+(* C04 - garbage is reclaimed and a finished run leaves nothing behind. Property theorems only. Part 1: the collector (proofs/GCProofs.v). Part 2: the whole machine (proofs/VMGCProofs.v): after every collection only reachable values are held, and for EVERY bytecode and EVERY instruction budget (= every abort point; the budget exit is the path a run-time error takes) the run ends with exactly the result graph allocated - nothing for an error. *)
+From NL.Model Require Import VM.
+From NL.Spec Require Import GCInv VMInv.
+From NL.Proofs Require GCProofs VMGCProofs.
 Open Scope Z_scope.
 
 (* after a collection the collector holds exactly the managed objects reachable from the roots *)
-Theorem run_collects : forall h g roots g' h',
-  GCInv h g -> roots_managed g roots -> roots_ok h roots -> gc_run h g roots = Ok (g', h') ->
-  forall v, In v (objects g') <->
-            (In v (objects g) /\ exists l, val_loc v = Some l /\ reach h roots l).
+Theorem run_collects : forall (h : heap) (g : gc) (roots : list val) (g' : gc) (h' : heap), GCInv h g -> roots_managed g roots -> roots_ok h roots -> gc_run h g roots = Ok (g', h') -> forall v : val, In v (objects g') <-> In v (objects g) /\ (exists l : positive, val_loc v = Some l /\ reach h roots l).
 Proof. exact GCProofs.run_collects. Qed.
 
-(* every unreachable managed box is released, exactly once (the ledger counts them) *)
-Theorem run_frees_garbage_once : forall h g roots g' h',
-  GCInv h g -> roots_managed g roots -> gc_run h g roots = Ok (g', h') ->
-  (forall l, managed g l -> ~ reach h roots l -> h_alive h' l = false)
-  /\ n_freed h' = n_freed h + Z.of_nat (length (objects g)) - Z.of_nat (length (objects g'))
-  /\ n_alloc h' = n_alloc h.
+(* every unreachable managed box is released exactly once (ledger) *)
+Theorem run_frees_garbage_once : forall (h : heap) (g : gc) (roots : list val) (g' : gc) (h' : heap), GCInv h g -> roots_managed g roots -> gc_run h g roots = Ok (g', h') -> (forall l : positive, managed g l -> ~ reach h roots l -> h_alive h' l = false) /\ n_freed h' = n_freed h + Z.of_nat (length (objects g)) - Z.of_nat (length (objects g')) /\ n_alloc h' = n_alloc h.
 Proof. exact GCProofs.run_frees_garbage_once. Qed.
 
 (* dropping the collector releases everything it still manages, each box once *)
-Theorem destroy_frees_all : forall h g, GCInv h g ->
-  exists g' h', gc_destroy h g = Ok (g', h') /\ objects g' = []
-    /\ (forall l, managed g l -> h_alive h' l = false)
-    /\ (forall l, ~ managed g l -> PM.find l (cells h') = PM.find l (cells h))
-    /\ n_freed h' = n_freed h + Z.of_nat (length (objects g)).
+Theorem destroy_frees_all : forall (h : heap) (g : gc), GCInv h g -> exists (g' : gc) (h' : heap), gc_destroy h g = Ok (g', h') /\ objects g' = [] /\ (forall l : positive, managed g l -> h_alive h' l = false) /\ (forall l : positive, ~ managed g l -> PM.find l (cells h') = PM.find l (cells h)) /\ n_freed h' = n_freed h + Z.of_nat (length (objects g)).
 Proof. exact GCProofs.destroy_frees_all. Qed.
 
-(* handing a result over to the caller: untrace removes exactly the managed objects reachable
-   from it (each once, terminating on cycles) and frees nothing *)
-Theorem untrace_spec : forall h g o, GCInv h g -> roots_managed g [o] -> roots_ok h [o] ->
-  exists g', untrace h g o = Ok g'
-    /\ NoDup (map val_loc (objects g'))
-    /\ (forall v, In v (objects g') <->
-                  (In v (objects g) /\ forall l, val_loc v = Some l -> ~ reach h [o] l)).
+(* handing a result over removes exactly the managed objects reachable from it and frees nothing *)
+Theorem untrace_spec : forall (h : heap) (g : gc) (o : val), GCInv h g -> roots_managed g [o] -> roots_ok h [o] -> exists g' : gc, untrace h g o = Ok g' /\ NoDup (map val_loc (objects g')) /\ (forall v : val, In v (objects g') <-> In v (objects g) /\ (forall l : positive, val_loc v = Some l -> ~ reach h [o] l)).
 Proof. exact GCProofs.untrace_spec. Qed.
 
-Check run_collects : forall h g roots g' h',
-  GCInv h g -> roots_managed g roots -> roots_ok h roots -> gc_run h g roots = Ok (g', h') ->
-  forall v, In v (objects g') <->
-            (In v (objects g) /\ exists l, val_loc v = Some l /\ reach h roots l).
+(* MACHINE level: after the collection at Return/ReturnValue, managed = alive = reachable from what the machine keeps, and the ledger counts exactly the boxes released *)
+Theorem vm_collect_exact : forall (orc : oracle) (prog : program) (s s' : vm), VMInv prog s -> at_return prog s -> step orc prog s = Ok (Continue s') -> (forall l : positive, managed (v_gc s') l <-> reach (v_heap s) (vm_vals prog s') l) /\ (forall l : positive, h_alive (v_heap s') l = true <-> reach (v_heap s) (vm_vals prog s') l) /\ (forall l : positive, reach (v_heap s') (vm_vals prog s') l <-> reach (v_heap s) (vm_vals prog s') l) /\ n_alloc (v_heap s') = n_alloc (v_heap s) /\ n_freed (v_heap s') = n_freed (v_heap s) + Z.of_nat (length (objects (v_gc s))) - Z.of_nat (length (objects (v_gc s'))).
+Proof. exact VMGCProofs.vm_collect_exact. Qed.
+
+(* THE property: for every bytecode and every budget the run ends with the ledger balanced: an error / abort at ANY point leaves nothing allocated; a normal end leaves exactly the result graph, alive and intact *)
+Theorem ledger_balanced : forall (orc : oracle) (bc : bytecode) (n : nat) (r : outcome val) (out : text) (steps : nat) (oh : outcome heap), run_program orc bc n = {| o_result := r; o_out := out; o_steps := steps; o_heap := oh |} -> exists h : heap, oh = Ok h /\ h_live_count h = Z.of_nat (alive_count h) /\ match r with | Ok v => val_ok h v = true /\ (forall l : positive, h_alive h l = true <-> reach h [v] l) /\ (forall (la : positive) (a : bool) (vs : list val) (x : val), reach h [v] la -> PM.find la (cells h) = Some (a, OArr vs) -> In x vs -> val_ok h x = true) | _ => (forall l : positive, h_alive h l = false) /\ n_alloc h = n_freed h end.
+Proof. exact VMGCProofs.ledger_balanced. Qed.
+
+(* the returned result stays valid after the interpreter (its collector) is gone *)
+Theorem result_survives_drop : forall (orc : oracle) (prog : program) (n : nat) (s : vm) (v : val) (s' : vm) (k : nat), VMInv prog s -> run_loop orc prog n s = (Ok v, s', k) -> exists (g' : gc) (h : heap), gc_destroy (v_heap s') (v_gc s') = Ok (g', h) /\ (forall l : positive, reach (v_heap s') [v] l -> PM.find l (cells h) = PM.find l (cells (v_heap s')) /\ h_alive h l = true) /\ (forall l : positive, reach h [v] l <-> reach (v_heap s') [v] l).
+Proof. exact VMGCProofs.result_survives_drop. Qed.
+
+(* an instruction allocates at most one box *)
+Theorem vm_step_alloc : forall (orc : oracle) (prog : program) (s s' : vm), VMInv prog s -> step orc prog s = Ok (Continue s') -> n_alloc (v_heap s) <= n_alloc (v_heap s') <= n_alloc (v_heap s) + 1.
+Proof. exact VMGCProofs.vm_step_alloc. Qed.
+
 
 Print Assumptions run_collects.
 Print Assumptions run_frees_garbage_once.
 Print Assumptions destroy_frees_all.
 Print Assumptions untrace_spec.
+Print Assumptions vm_collect_exact.
+Print Assumptions ledger_balanced.
+Print Assumptions result_survives_drop.
+Print Assumptions vm_step_alloc.
